@@ -106,6 +106,7 @@ C14_CASES = {
 TEXT_CASES = {
     ("C15", "loop-depth-underflow-fn-signature", "bd16179"): "while true { fn f() }",
     ("C15", "loop-depth-underflow-method-signature", "bd16179"): "let i=0; while i < 3 { class B { bar() let { 1 } } }",
+    ("C15", "both-if-arms-exit-with-locals", "be35216"): "let c1 = 0;\nwhile nil {\n  if c1 {\n  } else {\n    let c2 = 0;\n    let v6 = 9;\n    if c2 { continue; } else { continue; }\n  }\n}\nfn f(a) { let p = 1; let q = 2; if a { return p; } else { return q; } }\nprint(f(true));",
     ("C15", "lambda-continue-in-loop", "de28c2e"): "for i in [1] { let f = || { continue; }; }",
     ("C15", "lambda-break-in-loop", "de28c2e"): "while true { let f = || { break; }; break; }",
     ("C15", "call-with-254-args", "48393ed"): "fn f(" + ", ".join("p%d" % i for i in range(254)) + ") { return p0; }\nprint(f(" + ", ".join("1" for _ in range(254)) + "));",
